@@ -9,6 +9,7 @@ the block sequence.
 -/
 import Shutter.Proofs.AppOrder
 import Shutter.Generated.AppFacts
+import Shutter.Proofs.AppMempool
 
 namespace Shutter.Properties.C09
 open Shutter Shutter.App Shutter.App.App
@@ -48,6 +49,61 @@ theorem C09_replicas_agree (chainId : String) (keypers : List Addr) (threshold i
     congr 1
     exact List.map_snd_zip (Nat.le_of_eq hl.symm)
   rw [e orders₁ hl₁ hv₁, e orders₂ hl₂ hv₂]
+
+open Shutter.Mempool
+
+/-- **The mempool is not part of the block sequence.**  Run any history on a node whose mempool state is
+    arbitrary (`withCheck a c`), with mempool checks interleaved anywhere: the answers to the block sequence
+    (begin, deliver, end, commit) are those of the same node running the block sequence alone, and the two final
+    states differ in the mempool bookkeeping only. -/
+theorem C09_mempool_irrelevant (h : List (Order × Op)) (a : App.App) (c : CheckTxState) :
+    ∃ c', ((withCheck a c).runWith h).1 = withCheck (a.runWith (blockOps h)).1 c' ∧
+      blockOuts ((withCheck a c).runWith h).2 = (a.runWith (blockOps h)).2 := by
+  induction h generalizing a c with
+  | nil => exact ⟨c, rfl, rfl⟩
+  | cons p rest ih =>
+    obtain ⟨o, op⟩ := p
+    by_cases hop : isBlockOp op = true
+    · obtain ⟨c1, hs, hout⟩ := step_mem o a c op hop
+      obtain ⟨c2, h1, h2⟩ := ih (stepWith o a op).1 c1
+      refine ⟨c2, ?_, ?_⟩
+      · have hb : blockOps ((o, op) :: rest) = (o, op) :: blockOps rest := by simp [blockOps, hop]
+        rw [hb]
+        simp only [runWith, hs]
+        exact h1
+      · have hb : blockOps ((o, op) :: rest) = (o, op) :: blockOps rest := by simp [blockOps, hop]
+        rw [hb]
+        simp only [runWith, hs, blockOuts, List.filter_cons, hout, if_true]
+        congr 1
+    · have hck : ∃ tx, op = .check tx := by
+        cases op with
+        | check tx => exact ⟨tx, rfl⟩
+        | _ => simp [isBlockOp] at hop
+      obtain ⟨tx, rfl⟩ := hck
+      obtain ⟨c1, hs, hout⟩ := step_check o (withCheck a c) tx
+      rw [withCheck_withCheck] at hs
+      obtain ⟨c2, h1, h2⟩ := ih a c1
+      have hb : blockOps ((o, Op.check tx) :: rest) = blockOps rest := by simp [blockOps, isBlockOp]
+      rw [hb]
+      have hstep : stepWith o (withCheck a c) (.check tx) = (withCheck a c1, (stepWith o (withCheck a c) (.check tx)).2) := by
+        rw [← hs]
+      refine ⟨c2, ?_, ?_⟩
+      · simp only [runWith]
+        rw [hstep]
+        exact h1
+      · simp only [runWith]
+        rw [hstep]
+        simp only [blockOuts, List.filter_cons, hout]
+        exact h2
+
+/-- **Replicas with different mempools.**  Two replicas that execute the same block sequence answer it
+    identically, whatever transactions each of them was asked to check in between. -/
+theorem C09_mempool_replicas (a : App.App) (h₁ h₂ : List (Order × Op)) (hb : blockOps h₁ = blockOps h₂) :
+    blockOuts (a.runWith h₁).2 = blockOuts (a.runWith h₂).2 := by
+  obtain ⟨_, _, e1⟩ := C09_mempool_irrelevant h₁ a a.checkTx
+  obtain ⟨_, _, e2⟩ := C09_mempool_irrelevant h₂ a a.checkTx
+  rw [withCheck_self] at e1 e2
+  rw [e1, e2, hb]
 
 /-! ### facts regenerated from the source -/
 
